@@ -5,7 +5,7 @@ import ast
 import copy
 from fractions import Fraction
 
-from ..astu import U, S, has, walk_shallow, call_name, calls_in, kwarg, linform, lin_str, monomial, mono_str, names_in, _num
+from ..astu import U, S, has, same, walk_shallow, call_name, calls_in, kwarg, linform, lin_str, monomial, mono_str, names_in, _num
 from ..core import AnalysisError, Mutant, Rule, Twin
 from ..idioms import for_loops, target_names
 
@@ -31,7 +31,7 @@ def r1_blocks(ctx):
         fn = ctx.func(EQS, cls + ".f")
         a = EQS + ":" + cls + ".f"
         ret = [n for n in walk_shallow(fn) if isinstance(n, ast.Return)][-1]
-        ctx.check(S(ret.value) == "f_equil+f_preserv", a, "equil+preserv", "must return the equilibrium block followed by the conservation block; found %s" % U(ret.value), node=ret)
+        ctx.check(same(ret.value, "f_equil + f_preserv", scope=fn), a, "equil+preserv", "must return the equilibrium block followed by the conservation block; found %s" % U(ret.value), node=ret)
         ctx.check(has(fn, "init_concs, eq_params = self._inits_and_eq_params(params)"), a, "params-split", "initial concentrations / constants must come from _inits_and_eq_params(params)", node=fn)
         ctx.check(has(fn, "A, ks = self._get_A_ks(eq_params)"), a, "A-ks", "stoichiometries/constants must come from self._get_A_ks(eq_params)", node=fn)
         ctx.check(has(fn, "B, comp_nrs = self.eqsys.composition_balance_vectors()"), a, "B-from-composition-vectors", "conservation matrix must be composition_balance_vectors()[0]", node=fn)
@@ -41,7 +41,7 @@ def r1_blocks(ctx):
         if len(pres) == 1 and isinstance(pres[0].value, ast.Call) and call_name(pres[0].value) == "linear_exprs":
             c = pres[0].value
             rr = kwarg(c, "rref")
-            ok = len(c.args) == 3 and U(c.args[0]) == "B" and S(c.args[2]) == "mat_dot_vecB,init_concs" and rr is not None and U(rr) == "self.rref_preserv"
+            ok = len(c.args) == 3 and U(c.args[0]) == "B" and same(c.args[2], "mat_dot_vec(B, init_concs)", scope=fn) and rr is not None and U(rr) == "self.rref_preserv"
             conc_arg = U(c.args[1])
         ctx.check(ok, a, "conservation=B*c-B*c0", "conservation block must be linear_exprs(B, <concentrations>, mat_dot_vec(B, init_concs), rref=self.rref_preserv); found %s" % (U(pres[0].value) if pres else None), node=fn)
         facts[cls] = conc_arg
@@ -51,12 +51,12 @@ def r1_blocks(ctx):
     ip = ctx.func(EQS, "_NumSys._inits_and_eq_params")
     a = EQS + ":_NumSys._inits_and_eq_params"
     ret = [n for n in walk_shallow(ip) if isinstance(n, ast.Return)][-1]
-    ctx.check(S(ret.value) == "params[:self.eqsys.ns],eq_params" and has(ip, "eq_params = params[self.eqsys.ns:]"), a, "first-ns=inits",
+    ctx.check(same(ret.value, "params[:self.eqsys.ns], eq_params", scope=ip) and has(ip, "eq_params = params[self.eqsys.ns:]"), a, "first-ns=inits",
               "the first ns parameters are the initial concentrations, the rest the constants; found %s" % U(ret.value), node=ret)
     gk = ctx.func(EQS, "_NumSys._get_A_ks")
     a = EQS + ":_NumSys._get_A_ks"
     c = [x for x in calls_in(gk) if call_name(x) == "self.eqsys.stoichs_constants"]
-    ok = len(c) == 1 and len(c[0].args) == 2 and U(c[0].args[1]) == "self.rref_equil" and S(c[0].args[0]) == "self.eqsys.eq_constantsnon_precip_rids,eq_params,self.small" \
+    ok = len(c) == 1 and len(c[0].args) == 2 and U(c[0].args[1]) == "self.rref_equil" and same(c[0].args[0], "self.eqsys.eq_constants(non_precip_rids, eq_params, self.small)", scope=gk) \
         and U(kwarg(c[0], "non_precip_rids")) == "non_precip_rids" and U(kwarg(c[0], "backend")) == "self.backend"
     ctx.check(ok, a, "equil-rref-flag", "_get_A_ks must pass (eq_constants(non_precip_rids, eq_params, small), self.rref_equil, backend=, non_precip_rids=); found %s" % (U(c[0]) if c else None), node=gk)
     init = ctx.func(EQS, "_NumSys.__init__")
@@ -81,7 +81,7 @@ def r2_k_opposite_q(ctx):
     lc = eq[0].value
     g = lc.generators[0]
     yv = fn.args.args[1].arg
-    ctx.check(S(g.iter) == "zipprodpow%s,A,ks" % yv and not g.ifs, a, "Q=prodpow(y,A)", "quotients must be prodpow(y, A) zipped with the constants; found %s" % U(g.iter), node=lc)
+    ctx.check(same(g.iter, "zip(prodpow(%s, A), ks)" % yv, scope=fn) and not g.ifs, a, "Q=prodpow(y,A)", "quotients must be prodpow(y, A) zipped with the constants; found %s" % U(g.iter), node=lc)
     qn, kn = target_names(g.target)
     e = lc.elt
     ok = isinstance(e, ast.IfExp) and S(e.test) in ("%s!=0" % kn, "0!=%s" % kn)
@@ -378,7 +378,12 @@ def r3b_inverse(ctx):
     facts = _transform_facts(ctx)
     for cls, (f, fm, post, pre, node) in facts.items():
         a = EQS + ":" + cls
-        pre_ops, post_ops = _chain(pre), _chain(post)
+        try:
+            pre_ops, post_ops = _chain(pre), _chain(post)
+        except AnalysisError:
+            if any(i.status == "violation" and i.anchor == a and i.rule == "C07-R3" for i in ctx.instances):
+                continue  # already reported: f and post_processor apply different maps
+            raise
         ok, why = _compose_is_identity(pre_ops, post_ops)
         ctx.check(ok, a, "post(pre(x))=x", "%s: post_processor is not the inverse of pre_processor (pre %s, post %s; %s)" % (cls, pre_ops, post_ops, why), node=node,
                   pre=[list(map(str, o)) for o in pre_ops], post=[list(map(str, o)) for o in post_ops])
